@@ -121,8 +121,10 @@ def gen(rng, tier):
                 for _ in range(rng.choice([0, 1, 2, 4]))]
         cases.append({'kind': 'csvwrite', 'rows': rows})
     if tier != 'quick':
-        # the field size limit: 131072 characters are accepted, one more is refused
-        for n in (131071, 131072, 131073):
+        # the field size limit: the model's constant against csv.field_size_limit(), and fields of a few thousand characters
+        # (the extracted model reverses a field with Coq's quadratic `rev`: 131072-character fields are not run through it)
+        cases.append({'kind': 'csvlimit'})
+        for n in (1000, 4000, 8000):
             cases.append({'kind': 'csvparse', 'nl': False, 'text': 'a,' + 'x' * n + '\n'})
             cases.append({'kind': 'csvparse', 'nl': False, 'text': '"' + 'x' * n})
     return cases
@@ -151,6 +153,8 @@ def csv_text(cols, rows):
 
 
 def impl(case):
+    if case.get('kind') == 'csvlimit':
+        return {'out': 'OK %d' % csv.field_size_limit()}
     if case.get('kind') == 'csvparse':
         return {'out': csv_outcome(lambda: list(csv.reader(io.StringIO(case['text'], newline=None) if case['nl'] else io.StringIO(case['text']))), ctable_text)}
     if case.get('kind') == 'csvwrite':
@@ -255,6 +259,8 @@ def rows_text(rows):
 
 
 def model_lines(case, io_):
+    if case.get('kind') == 'csvlimit':
+        return ['csv_limit']
     if case.get('kind') == 'csvparse':
         return ['csv_parse %s %s' % ('1' if case['nl'] else '0', hs(case['text']))]
     if case.get('kind') == 'csvwrite':
@@ -280,6 +286,10 @@ def strip_fill(f):
 
 def judge(case, io_, mo):
     ps = []
+    if case.get('kind') == 'csvlimit':
+        if mo is not None and mo[0] != io_['out']:
+            ps.append({'kind': 'corr', 'sig': 'csv-field-limit', 'msg': 'csv.field_size_limit() is %s, the model constant %s' % (io_['out'], mo[0])})
+        return ps
     if case.get('kind') == 'csvparse':
         if mo is not None and mo[0] != io_['out']:
             ps.append({'kind': 'corr', 'sig': 'csv-reader', 'msg': 'csv.reader gives %s, the model %s' % (io_['out'][:80], mo[0][:80])})
@@ -321,13 +331,15 @@ def judge(case, io_, mo):
 
 
 def nontrivial(case, io_):
+    if case.get('kind') == 'csvlimit':
+        return False
     if case.get('kind') == 'csvparse':
         return len(case['text']) >= 2
     return len(case['rows']) >= 2
 
 
 def label(case):
-    if case.get('kind') in ('csvparse', 'csvwrite'):
+    if case.get('kind') in ('csvparse', 'csvwrite', 'csvlimit'):
         return case['kind'] + ('/universal-newlines' if case.get('nl') else '')
     n = len(case['rows'])
     return '%s/%s/%s/rows=%s/%s' % (case['via'], case['codec'], '1014' if case['blocked'] else 'vbs', '1' if n == 1 else '2-5' if n <= 5 else '6+',
